@@ -12,8 +12,9 @@ PEER_SYS_BASE = 0x50000000
 class GemPeer:
     """Scripted GEM peer (host when the endpoint is equipment and vice versa) on top of an HsmsPeer."""
 
-    def __init__(self, sim, hp: hsmsenv.HsmsPeer, peer_is_host: bool):
+    def __init__(self, sim, hp: hsmsenv.HsmsPeer, peer_is_host: bool, id_base=PEER_SYS_BASE):
         self.sim = sim
+        self.id_base = id_base
         self.hp = hp
         self.peer_is_host = peer_is_host
         self.inbox: list[rc.Frame] = []          # every data frame written by the endpoint
@@ -50,7 +51,7 @@ class GemPeer:
 
     def next_system(self):
         self._n += 1
-        return PEER_SYS_BASE + self._n
+        return self.id_base + self._n
 
     def send_primary(self, stream, function, item=None, w=True, system=None, raw=None, session=0):
         system = self.next_system() if system is None else system
@@ -77,7 +78,7 @@ class GemEnv:
     """One real GEM handler (equipment or host) + the connection bring-up against a scripted peer."""
 
     def __init__(self, sim, role="equipment", active=False, t3=3.0, t5=1.0, t6=2.0, delay=2, port=5000,
-                 handler_factory=None, counter=1000, **handler_kw):
+                 handler_factory=None, counter=1000, transport="hsms", line=None, **handler_kw):
         import secsgem.common
         import secsgem.gem
         import secsgem.hsms
@@ -85,10 +86,19 @@ class GemEnv:
         self.sim = sim
         self.role = role
         self.active = active
+        self.transport = transport
+        self.line = line
         mode = secsgem.hsms.HsmsConnectMode.ACTIVE if active else secsgem.hsms.HsmsConnectMode.PASSIVE
         dtype = secsgem.common.DeviceType.EQUIPMENT if role == "equipment" else secsgem.common.DeviceType.HOST
-        self.settings = secsgem.hsms.HsmsSettings(connect_mode=mode, address="127.0.0.1", port=port, device_type=dtype,
-                                                  t3=t3, t5=t5, t6=t6, establish_communication_timeout=delay)
+        if transport == "secsi":
+            import secsgem.secsi
+
+            self.settings = secsgem.secsi.SecsISettings(port="SIMA", speed=9600, device_type=dtype, t3=t3,
+                                                        establish_communication_timeout=delay)
+        else:
+            self.settings = secsgem.hsms.HsmsSettings(connect_mode=mode, address="127.0.0.1", port=port,
+                                                      device_type=dtype, t3=t3, t5=t5, t6=t6,
+                                                      establish_communication_timeout=delay)
         if handler_factory is not None:
             self.handler = handler_factory(self.settings)
         elif role == "equipment":
@@ -98,7 +108,9 @@ class GemEnv:
         self.proto = self.handler.protocol
         if counter is not None:
             self.proto._system_counter = counter
-        self.proto._linktest_timeout = 100000
+        if transport == "hsms":
+            self.proto._linktest_timeout = 100000
+        self.enabled_n = 0
         self.addr = ("127.0.0.1", port)
         self.listener = None
         self.peer: GemPeer | None = None
@@ -117,12 +129,28 @@ class GemEnv:
 
     @property
     def conn_state(self):
+        if self.transport == "secsi":
+            conn = self.proto._connection
+            return "CONNECTED_SELECTED" if getattr(conn, "_enabled", False) else "NOT_CONNECTED"
         return self.proto.connection_state.current.name
 
     def start(self):
+        if self.transport == "secsi":
+            from . import secsienv
+
+            # the scripted peer sits on the other end of the line before the endpoint opens its port
+            hp = secsienv.SecsIHp(self.sim, self.line, "SIMB", peer_is_host=(self.role == "equipment"))
+            self._wrap(hp)
+            # SerialConnection.enable() busy-waits for its receiver thread: never call it from the root
+            self.sim.spawn(self._enable, "app_enable", role="app")
+            return
         if self.active:
             self.listener = hsmsenv.PeerListener(self.sim, self.addr, configure=self._accepted)
         self.handler.enable()
+
+    def _enable(self):
+        self.handler.enable()
+        self.enabled_n += 1
 
     def _accepted(self, hp):
         hp.auto_select = True
@@ -130,7 +158,11 @@ class GemEnv:
 
     def _wrap(self, hp):
         self.hp = hp
-        self.peer = GemPeer(self.sim, hp, peer_is_host=(self.role == "equipment"))
+        # system bytes of the scripted peer are unique over all connections of a run (late frames of an old
+        # connection can surface on the next one)
+        self.peer_no = getattr(self, "peer_no", -1) + 1
+        self.peer = GemPeer(self.sim, hp, peer_is_host=(self.role == "equipment"),
+                            id_base=PEER_SYS_BASE + 0x10000 * self.peer_no)
         if self.configure_peer is not None:
             self.configure_peer(self.peer)
         return self.peer
@@ -138,6 +170,10 @@ class GemEnv:
     def connect(self, timeout=8, select=True):
         """Root: bring up TCP + HSMS select. Returns the GemPeer or None."""
         sim = self.sim
+        if self.transport == "secsi":
+            if not sim.wait_until(lambda: self.conn_state == "CONNECTED_SELECTED", timeout):
+                return None
+            return self.peer
         if self.active:
             old = self.hp
             if not sim.wait_until(lambda: self.hp is not None and self.hp is not old and self.hp.open, timeout):
